@@ -103,6 +103,18 @@ def run_program(case, drive, twice=False):
             h.initialize()
         if drive[0] == "pause":
             h.start_pause_after(drive[1], ["start"])
+        elif drive[0] == "pause-other":
+            # while this run is paused, unrelated work in the process initialises and runs ANOTHER simulator
+            h.start_pause_after(drive[1], ["start"])
+            other_prog = {"clock": "float", "cap": 40, "rep": {"start": (0.0).hex(), "warmup": (0.0).hex(),
+                                                                "length": (5.0).hex()},
+                          "root": [["rel", (1.0).hex(), 0, 5], ["now", 0, 5]], "nodes": [[["rel", (1.0).hex(), 0, 5]]]}
+            ho = Harness(other_prog)
+            try:
+                ho.initialize()
+                ho.run_piece(["start"])
+            finally:
+                ho.finish()
         elif drive[0] == "bounded":
             s, ln = dec_ref(prog["rep"]["start"]), dec_ref(prog["rep"]["length"])
             if prog["clock"] == "int":
